@@ -81,6 +81,21 @@ let both_nested (operands : bdd list) (outer : op2) (faithful : bdd outcome) (co
   if faithful <> compositional && List.for_all wfb operands && table_ok outer then raise (Bad "nested models disagree");
   faithful
 
+(* substitute: the reported result is the one of the STEP-FAITHFUL model of the library's own algorithm
+   (Model/Substitute.v: clone / safe / proxy-variable paths, set_num_vars, rename_variables, nested apply, every
+   unwrap as an explicit Panic); the compositional I/O-equivalent Shannon model (Ops.substitute) is recomputed
+   alongside.  Proofs/SubstituteSem.v `substitute_faithful_eq_model` proves the two outcomes equal whenever both
+   operands are well-formed, range over the same variable count below the u16 maximum, and x is in range.  Under
+   exactly these hypotheses a difference can only be a model/extraction/driver bug and is a hard error; otherwise
+   the theorem does not apply and the faithful model's result goes to the judge. *)
+let n_u16_max = n_of_int 65535
+let substitute_both (f : bdd) (x : n) (g : bdd) : bdd outcome =
+  let fa = substitute_faithful f x g in
+  let co = substitute f x g in
+  if fa <> co && wfb f && wfb g && N.eqb (nvars f) (nvars g) && N.ltb x (nvars f) && N.ltb (nvars f) n_u16_max
+  then raise (Bad "substitute-models-disagree");
+  fa
+
 let run (c : s list) : s option =
   Some (match c with
   | A "fbin" :: t :: fa :: fb :: fo :: x :: y :: _ ->
@@ -143,7 +158,7 @@ let run (c : s list) : s option =
   | A "var_pick_random" :: x :: v :: sc :: _ -> e_obdd (fst (var_pick_random (d_bdd x) (d_n v) (d_bits 'v' sc)))
   | A "pick" :: x :: vs :: _ -> e_obdd (pick (d_bdd x) (d_list d_n vs))
   | A "pick_random" :: x :: vs :: sc :: _ -> e_obdd (pick_random (d_bdd x) (d_list d_n vs) (d_bits 'v' sc))
-  | A "substitute" :: f :: v :: g :: _ -> e_obdd (substitute (d_bdd f) (d_n v) (d_bdd g))
+  | A "substitute" :: f :: v :: g :: _ -> e_obdd (substitute_both (d_bdd f) (d_n v) (d_bdd g))
   | A "mk_true" :: nv :: _ -> e_bdd (mk_true (d_n nv))
   | A "mk_false" :: nv :: _ -> e_bdd (mk_false (d_n nv))
   | A "mk_var" :: nv :: v :: _ -> e_obdd (vs_mk_literal (d_n nv) (d_n v) true)
